@@ -486,6 +486,58 @@ B("B98", "C09-T1", [(TRAP, "        deleted_transitions = list(set(succs) - set(
 
 
 # reverting these fix commits by patch is ambiguous after later commits; explicit variants re-introduce the defect
+# ------------------------------------------------------------------------------------------ the normalisations must not hide bugs
+# Each variant has the *shape* of a refactoring that a pre-pass reads back into the reference spelling, with a defect inside.
+B("B300", ["C08-K6"], [(CAND, """    done = False
+    while not done:
+        done = True
+        for var in retained_set:
+            # Standrad termination checks.""", """    done = False
+    best_count = len(candidate_states)
+    while not done:
+        done = True
+        for var in retained_set:
+            # Standrad termination checks."""),
+                       (CAND, """                solution_limit=len(candidate_states),
+            )
+            if len(candidate_states_2) < len(candidate_states):""", """                solution_limit=best_count,
+            )
+            if len(candidate_states_2) < best_count:""")],
+  "greedy optimiser: the length is cached in a local that is never refreshed (a length shadow that goes stale)")
+B("B301", ["C02-H3"], [(SD, """        if not self.dag.has_edge(parent_id, child_id):  # type: ignore
+            self.dag.add_edge(parent_id, child_id, motif=stable_motif, all_motifs=[stable_motif])  # type: ignore
+        else:
+            # The same edge can be inserted repeatedly (e.g. by another run of the SCC
+            # expansion). Every stable motif is recorded only once.
+            all_motifs = self.dag.edges[parent_id, child_id]["all_motifs"]  # type: ignore
+            if stable_motif not in all_motifs:
+                all_motifs.append(stable_motif)  # type: ignore""", """        try:
+            all_motifs = self.dag.edges[parent_id, child_id]["all_motifs"]  # type: ignore
+        except KeyError:
+            self.dag.add_edge(parent_id, child_id, motif=stable_motif, all_motifs=[stable_motif])  # type: ignore
+        else:
+            all_motifs.clear()
+            all_motifs.append(stable_motif)  # type: ignore""")],
+  "_ensure_edge in try/except form, but an existing edge forgets its earlier motifs")
+B("B302", ["C03-G"], [(DFS, """        while len(successors) > 0 and successors[-1] in seen:
+            successors.pop()""", """        while len(successors) > 1:
+            successors.pop()""")],
+  "expand_dfs drops unvisited successors (all but one)")
+B("B303", ["C19-N4"], [(CAND, """def compute_attractor_candidates(""", """SIMULATION_SEED = 123
+
+
+def _next_seed() -> int:
+    global SIMULATION_SEED
+    SIMULATION_SEED += 1
+    return SIMULATION_SEED
+
+
+def compute_attractor_candidates(""")],
+  "a module-level 'constant' that a function re-binds through `global`")
+B("B304", ["C15-E5"], [(SD, """        if len(current_space) == self.network.variable_count():""",
+                        """        if len(current_space) >= self.network.variable_count() - 1:""")],
+  "_expand_one_node: 'fixed point' shortcut also taken with one free variable")
+
 MANUAL_REVERTS = {"f087faa"}
 B("R-F5", "C08-K1", [(CAND, '''    if not greedy_asp_minification or len(node_nfvs) == 0:''', '''    if len(retained_set) == sd.network.variable_count() and node_is_pseudo_minimal:
         return [retained_set | node_space]
